@@ -90,6 +90,8 @@ func main() {
 		os.Exit(cmdRun(os.Args[2:]))
 	case "check":
 		os.Exit(cmdCheck(os.Args[2:]))
+	case "specs":
+		os.Exit(cmdSpecs())
 	case "selftest":
 		os.Exit(cmdSelftest(os.Args[2:]))
 	}
